@@ -101,6 +101,7 @@ def key_for(rng) -> bytes:
 
 def snippet(rng) -> bytes:
     k = rng.choice(('write', 'write', 'write', 'pop0', 'pop1', 'try', 'invoke',
+                    'getval_op', 'getval_op',
                     'dscalar', 'dpoint', 'sign', 'sign_stack', 'masu', 'masv',
                     'das', 'rcs', 'rc', 'getval', 'getmsg', 'cts', 'flag',
                     'ret', 'checksig', 'write_stackkey', 'template'))
@@ -110,6 +111,21 @@ def snippet(rng) -> bytes:
         return b''.join(isa.push(rbytes(rng, rng.choice((1, 4, 8))))
                         for _ in range(n)) + O('WRITE_CACHE') \
             + bytes([len(key)]) + key + bytes([n])
+    if k == 'getval_op':
+        # read an embedder value and run a value-transforming op on it (a
+        # mutable embedder value must never be altered through the stack)
+        name = rng.choice(('sigfield1', 'sigfield2', 'extra', 'timestamp',
+                           'P', 'x')).encode()
+        other = rbytes(rng, rng.choice((1, 40, 64)))
+        tail = rng.choice((
+            isa.push(other) + O('XOR'), isa.push(other) + O('OR'),
+            isa.push(other) + O('AND'), isa.push(other) + O('CONCAT'),
+            O('NOT'), O('DUP') + O('CONCAT'), isa.push(other) + O('SWAP2')
+            + O('XOR'), isa.push(b'\x01') + O('SPLIT'), O('SHA256'),
+            isa.push(other) + O('SWAP2') + O('AND'), O('REVERSE') + b'\x01',
+            O('WRITE_CACHE') + b'\x01k\x01' + O('READ_CACHE') + b'\x01k'
+            + isa.push(other) + O('OR')))
+        return O('GET_VALUE') + bytes([len(name)]) + name + tail
     if k == 'pop0':
         return isa.push(rbytes(rng, 3)) + O('POP0')
     if k == 'pop1':
@@ -213,13 +229,20 @@ def gen_case(rng):
         if rng.random() < 0.5:
             cache[f'sigfield{i}'] = rbytes(rng, rng.choice((0, 3, 32)))
     cache['sigfield1'] = cache.get('sigfield1', b'abc')
+    # embedders may hand over mutable values (bytearray is an accepted value
+    # type of GET_VALUE and works as a sigfield)
+    for k_ in list(cache):
+        if rng.random() < 0.2:
+            cache[k_] = bytearray(cache[k_])
     if rng.random() < 0.5:
         cache['timestamp'] = rng.choice((0, env.NOW0, env.NOW0 + 5))
     for name in ('extra', 'P', 'E', 'x', 'X', 'IR', 's', 't', 'T', 'R', 'sa',
                  'RT', 'r'):
         if rng.random() < 0.2:
             cache[name] = rng.choice((b'emb', [b'a', b'b'], 7, 'text', 1.5,
-                                      [b'only']))
+                                      [b'only'], bytearray(b'mutable'),
+                                      [bytearray(b'm1'), b'i2'],
+                                      (b't1', bytearray(b't2'))))
     for bk in (b'k', b'P', b'sigfield1', b'timestamp'):
         if rng.random() < 0.15:
             cache[bk] = [b'bytes-keyed']
